@@ -9,8 +9,8 @@
    extracted model on every generated model and compared with the implementation's lists.  NOT proved: the
    same on graphs with tuple cycles (checked on every run by reachability on the built graph,
    run/lib/graphspec.reach_wild, per explicit start order; known finding K-WG-cycles delimits the models
-   where the algorithm is order-dependent); that the lists stay duplicate-free through the whole traversal
-   (observed per run). *)
+   where the algorithm is order-dependent).  Duplicate-freedom is proved for graphs without cycles (9) and
+   observed per run elsewhere. *)
 From Verif Require Import Base.Str Base.Outcome Model.Ast Model.Printer Model.WGraph Model.WWeights
   Spec.GraphWeights Proofs.WildcardProofs Proofs.WeightsProofs Proofs.GraphPrims Proofs.DagWeights Proofs.DagCheck Proofs.Witnesses.
 
@@ -48,3 +48,11 @@ Proof. exact acyclic_model_wildcards. Qed.
 (* 8. non-vacuity: the example model (with a wildcard restriction two levels below doc#viewer) is in the domain *)
 Theorem C11_domain_inhabited : in_dag_domain m_good = true /\ is_ok (build_weighted None m_good) = true.
 Proof. exact m_good_in_domain. Qed.
+
+(* 9. no duplicates, on every relation and operator node and on every edge (graphs without cycles, any order) *)
+Theorem C11_acyclic_graph_no_duplicates : forall g0 rank order g',
+  ranked_by g0 rank -> terminals_not_placeholders g0 -> unweighted g0 ->
+  assign_weights order g0 = Ok g' ->
+  forall x, is_terminal (n_type (node_of g0 x)) = false ->
+    NoDup (n_wild (node_of g' x)) /\ (forall e, In e (edges_from g' x) -> NoDup (e_wild e)).
+Proof. exact dag_wildcards_nodup. Qed.
